@@ -107,6 +107,8 @@
 (declare-fun uhost (BSeq) BSeq)
 (declare-fun upath (BSeq) BSeq)
 (declare-fun uquery (BSeq) BSeq)
+(declare-fun urlparses (BSeq) Bool)
+(assert (forall ((s BSeq) (h BSeq) (p BSeq) (q BSeq)) (! (urlparses (urlstring4 s h p q)) :pattern ((urlstring4 s h p q)))))
 (assert (forall ((s BSeq) (h BSeq) (p BSeq) (q BSeq)) (! (and (= (uscheme (urlstring4 s h p q)) s) (= (uhost (urlstring4 s h p q)) h) (= (upath (urlstring4 s h p q)) p) (= (uquery (urlstring4 s h p q)) q)) :pattern ((urlstring4 s h p q)))))
 
 ; ---- syscall/js vocabulary (uninterpreted readings of a JavaScript value) ----
@@ -142,3 +144,15 @@
 (assert (forall ((s BSeq)) (! (<= (len (trim s)) (len s)) :pattern ((trim s)))))
 ; readings of absent JSON members are the zero values (definition of the reading functions)
 (assert (forall ((b BSeq) (k BSeq)) (! (=> (not (jhas b k)) (and (= (jnum b k) 0) (= (jstr b k) empty) (not (jbool b k)))) :pattern ((jnum b k)) :pattern ((jstr b k)) :pattern ((jbool b k)))))
+
+; ---- round-trip vocabulary (assumed string/library facts; validated by the bounded library harness, thorough tier) ----
+; strconv.Atoi reads back what decimal formatting wrote (non-negative values)
+(assert (forall ((n Int)) (! (=> (and (<= 0 n) (<= n 9223372036854775807)) (and (>= (len (dec n)) 1) (isint (dec n)) (= (intval (dec n)) n))) :pattern ((dec n)))))
+; the hash names are upper-case already (str!x53484131 = "SHA1", ...323536 = "SHA256", ...353132 = "SHA512")
+(assert (and (= (upper str!x53484131) str!x53484131) (= (upper str!x534841323536) str!x534841323536) (= (upper str!x534841353132) str!x534841353132)))
+; the type names are lower-case already (str!x746f7470 = "totp", str!x686f7470 = "hotp")
+(assert (and (= (lower str!x746f7470) str!x746f7470) (= (lower str!x686f7470) str!x686f7470)))
+; strings.SplitN(i + sep + a, sep, 2) = [i, a] when i does not contain sep (nparts(i, sep) = 1), for a one-byte sep
+(assert (forall ((i BSeq) (sep BSeq) (a BSeq)) (! (=> (and (= (nparts i sep) 1) (= (len sep) 1))
+   (and (>= (nparts (cat (cat i sep) a) sep) 2) (= (part (cat (cat i sep) a) sep 0) i) (= (partrest (cat (cat i sep) a) sep 1) a)))
+   :pattern ((nparts (cat (cat i sep) a) sep)) :pattern ((part (cat (cat i sep) a) sep 0)) :pattern ((partrest (cat (cat i sep) a) sep 1)))))
